@@ -614,8 +614,18 @@ func planC15(tier string) *Plan {
 			}
 		}
 	}
+	// the block/pre-block the primary builds later comes from lazily built headers: none of an
+	// earlier view may survive a view change (Inv conjuncts 5 and 12 on the post-state)
+	for _, amev := range []int{0, 1} {
+		for _, my := range []int{1, 3} {
+			c := stepCfg{n: 4, my: my, prim: 0, amev: amev, req: 1, api: apiChangeView}
+			j := stepJob(c, want)
+			j.BudgetS = 600
+			p.Jobs = append(p.Jobs, j)
+		}
+	}
 	p.MustCover = []string{"C15.proposal", "event.processblock"}
-	p.MustAssert = []string{"C15.O1.increasing", "C15.O2.value", "C15.O2.clock", "C15.O3.args", "C15.O3.pool", "C15.O4.context", "C15.O4.block"}
+	p.MustAssert = []string{"C15.O1.increasing", "C15.O2.value", "C15.O2.clock", "C15.O3.args", "C15.O3.pool", "C15.O4.context", "C15.O4.block", "INV"}
 	p.Assumptions = append([]string{
 		"previous block timestamp and clock reading below 2^62, TimestampIncrement in [1, 2^40] (no 64-bit overflow of lastBlockTimestamp + increment)",
 		"GetVerified returns pairwise distinct transactions",
@@ -680,6 +690,9 @@ func planC09(tier string) *Plan {
 		// L2 responder selection: every own index, the sender symbolic
 		{roles: roles, amevs: am, reqs: []int{0, 1}, apis: []int{apiRecoveryRequest, apiChangeView}},
 		{roles: []int{1, 2}, amevs: am, reqs: []int{1}, apis: []int{apiRecoveryRequest}, extra: map[string]int{"watch": 1}},
+		// L3 a recovery message from any view is processed at once
+		{roles: []int{1, -1}, amevs: am, reqs: []int{0, 1}, apis: []int{apiRecoveryMessage}, extra: map[string]int{"rcv": 1}},
+		{roles: []int{1}, amevs: am, reqs: []int{0}, apis: []int{apiRecoveryMessage}, extra: map[string]int{"rreq": 1}},
 	}
 	p := stepPlan("C09", tier, want, cells, 900)
 	for _, e := range []string{"distinctviews", "range", "quorum"} {
@@ -688,7 +701,8 @@ func planC09(tier string) *Plan {
 		p.Jobs = append(p.Jobs, j)
 	}
 	p.MustCover = []string{"C09.L1.timeout", "C09.L2.request", "C09.L2.answered", "event.broadcast.changeview", "event.broadcast.recoveryrequest", "event.broadcast.recoverymessage", "C06.distinctviews"}
-	p.MustAssert = []string{"C09.L1.acts", "C09.L1.rearmed", "C09.L1.resend", "C09.L1.changeview", "C09.L1.recoveryrequest", "C09.L2.responders", "C06.O4.distinctviews", "INV"}
+	p.MustCover = append(p.MustCover, "C09.L3.changeview")
+	p.MustAssert = []string{"C09.L1.acts", "C09.L1.rearmed", "C09.L1.resend", "C09.L1.changeview", "C09.L1.recoveryrequest", "C09.L2.responders", "C09.L3.notcached", "C09.L3.changeview", "C06.O4.distinctviews", "INV"}
 	p.Outside = append(p.Outside, "THE EMERGENT CLAIM IS NOT DECIDED: that the live validators of a network actually decide after partitions heal / nodes restart is a whole-network liveness property over virtual time; only the per-node ingredients below are solver-decided",
 		"recovery transfer (a behind node adopting a peer's state from one recovery message) is examined only through the Inv/step obligations of OnReceive(RecoveryMessage) in C02-C04, not as an end-to-end lemma")
 	p.Explanation = "Local lemmas of recovery liveness on the real code, each one symbolic step from every Inv state (N=4): (L1) OnTimeout for the current epoch on an undecided validator always acts (proposal, ChangeView, RecoveryRequest, RecoveryMessage, or the dynamic-block-time deferral) and re-arms the timer; a committed node resends its state and never asks for a view change; a timeout-driven ChangeView is sent only while at most F validators are committed or lost, a RecoveryRequest only otherwise. (L2) A recovery request (or a ChangeView for a view already reached) is answered exactly by the committed nodes and by the F+1 validators following the sender, never by a watch-only node, with one message. (L4, with C06) the primaries of any n consecutive views are pairwise distinct for every n, so a view with a live primary is reached after at most #silent view changes."
@@ -705,9 +719,16 @@ func planC16(tier string) *Plan {
 		{roles: []int{0, 1, -1}, amevs: []int{0, 1}, maxs: []int{0}, reqs: []int{0, 1}, apis: []int{apiTimeout, apiNewTransaction, apiChangeView, apiPrepareRequest}},
 	}
 	p := stepPlan("C16", tier, want, cells, 900)
+	for _, j := range resetJobs(tier) {
+		if j.Params["n"] == 4 && j.Params["n2"] == 4 && (j.Params["start"] == 1 || j.Params["ctype0"] == apiCommit) {
+			c := *j
+			c.Want = want
+			p.Jobs = append(p.Jobs, &c)
+		}
+	}
 	p.PanicsCount = true
-	p.MustCover = []string{"C16.O1.defer", "C16.O1.forced", "C16.O2.defer", "C16.O2.notify", "step.end"}
-	p.MustAssert = []string{"C16.O1.defer", "C16.O1.propose", "C16.O1.forced", "C16.O2.defer", "C16.O2.notify", "C16.O2.ignored", "C16.O4.nosubscribe", "INV"}
+	p.MustCover = []string{"C16.O1.defer", "C16.O1.forced", "C16.O2.defer", "C16.O2.notify", "step.end", "C16.reset"}
+	p.MustAssert = []string{"C16.O1.defer", "C16.O1.defer.state", "C16.O1.propose", "C16.O1.forced", "C16.O2.defer", "C16.O2.defer.state", "C16.O2.notify", "C16.O2.ignored", "C16.O4.nosubscribe", "C16.reset.subscription", "INV"}
 	p.Outside = append(p.Outside, "THE NETWORK-LEVEL CLAIM IS NOT DECIDED: spacing of consecutive proposals on a fault-free synchronous network of 1..7 nodes under all delivery orders needs whole-network runs in virtual time; only the local timer algebra below is solver-decided")
 	p.Explanation = "Local timer algebra of the dynamic-block-time extension on the real OnTimeout/OnNewTransaction, one symbolic step from every Inv state at view 0 (N=4, MaxTimePerBlock >= TimePerBlock symbolic): an idle primary whose timer expires with an empty pool does not propose, subscribes once and re-arms for max-min; its next expiry or a new-transaction notification produces the proposal in that very call; a backup whose timer expires with an empty pool does not ask for a view change, subscribes and re-arms for 2*max-2*min (non-negative); a notification re-arms it for 2*min without a ChangeView; a notification without an active subscription changes nothing. With the extension not configured no path subscribes (SubscribeForTxs is nil: a call would be a panic, which is a violation here)."
 	return p
